@@ -143,7 +143,7 @@ def run(ck):
             rets = [p for p in paths if p.outcome == "return"]
             ck.check(bool(rets), "C11.R3", cls + ".autoload:returns", asite, "autoload never returns: %s" % [str(p.value) for p in paths][:2])
             for p in rets:
-                if any(c[1] in ("num_hidden", "num_aux", "num_visible") and c[2] is False for c in p.conds):
+                if True in cond_truths(p, lambda k: k[0] == "eq" and (k[1].is_zero() or k[2].is_zero()) and any("load[" in x for x in (k[1].syms() | k[2].syms()))):
                     continue  # stored size 0: degenerate file, outside the property
                 st, loc = p.value
                 ok = isinstance(st, VObj) and st.inst.cls is prog.cls(cls)
